@@ -22,7 +22,7 @@ func init() {
 	register(&Property{ID: "C12", Run: c12Run, Replay: func(c *Ctx, cas json.RawMessage, ch []int) {
 		var k c12Case
 		json.Unmarshal(cas, &k)
-		m := fromJSON(string(k.Map)).(map[string]interface{})
+		m := retype(fromJSON(string(k.Map))).(map[string]interface{})
 		rt.OrderPolicy = k.Pol
 		c12Check(c, m, k.Pairs)
 		rt.OrderPolicy = rt.PolicySorted
@@ -53,7 +53,7 @@ func c12Check(c *Ctx, m map[string]interface{}, pairs []string) (nontrivial bool
 	pristine := mxj.Map(deepCopy(m).(map[string]interface{}))
 	mv := mxj.Map(m)
 	cas := func() interface{} {
-		return c12Case{Map: json.RawMessage(jsonOf(before)), Pairs: pairs, Pol: rt.OrderPolicy}
+		return c12Case{Map: json.RawMessage(jsonOf(untype(before))), Pairs: pairs, Pol: rt.OrderPolicy}
 	}
 	// classification
 	anyMalformed := false
@@ -305,6 +305,27 @@ func c12Run(c *Ctx) {
 				c.S.Validated++
 			}
 			rt.OrderPolicy = rt.PolicySorted
+		}
+	}
+	// nil lists inside projected values (what NewMapGob returns for an empty list): the projection holds what
+	// ValuesForPath yields - a nil list stays a nil list (Json() writes null for one and [] for the other)
+	for _, mk := range []func() map[string]interface{}{
+		func() map[string]interface{} {
+			return map[string]interface{}{"a": map[string]interface{}{"k": []interface{}(nil), "ab": "v"}}
+		},
+		func() map[string]interface{} {
+			return map[string]interface{}{"a": []interface{}{map[string]interface{}{"k": []interface{}(nil)}, "v"}, "k": []interface{}(nil)}
+		},
+	} {
+		for _, pr := range [][]string{{"a:x"}, {"a.ab:x", "a:y"}, {"*:x"}, {"a.k:x"}, {"k:x.y"}} {
+			if !c.Mine() {
+				continue
+			}
+			c.S.States++
+			c.S.Evaluations++
+			c12Check(c, mk(), pr)
+			c.S.Schedules++
+			c.S.Validated++
 		}
 	}
 	if c.Thorough {
